@@ -1,5 +1,457 @@
-"""(stub)"""
+"""A-SQLGLOT: assumed contracts of the sqlglot 25.24.5 calls and properties used by the functions under contract.
+
+Nodes are heap objects whose class is the real sqlglot class (class table built from sqlglot.expressions); `args` is
+a dict object; `parent` a field.  Properties (`this`, `expression`, `expressions`, `name`, `db`, `catalog`, `alias`,
+`is_string`, `quoted`, `key`, `left`, `right`, `unit`, `to`) are encoded from their definitions in
+sqlglot/expressions.py (read with inspect while writing this file; A-SQLGLOT 4).  Tree searches (`find`, `find_all`,
+`find_ancestor`) are uninterpreted per (node, classes, order, args-heap) with the result-type facts only.
+"""
+from __future__ import annotations
+
+import z3
+
+from pyvc.sorts import B, CLS, I, KEY, NONE, S, V, mkb, mki, mkr, mks
+from pyvc.state import SeqView, Val, arr_lit, fresh_name
+from pyvc.types import DictT, ListT, NoneType, Opt, TupleT
+from pyvc.world import ClassSchema, SpecFun, Unsupported
+
+A = "A-SQLGLOT (sqlglot 25.24.5: Expression.args/parent/this/expression(s)/name/db/catalog/alias/text/find/find_all/copy/set/transform/sql as defined in sqlglot/expressions.py)"
+
+FIND = None  # set in install (needs array sorts)
 
 
 def install(w):
-    pass
+    import sqlglot
+    from sqlglot import exp
+
+    E = exp.Expression
+    H = w.handlers
+    w.schemas[E] = ClassSchema(E, fields={"args": DictT(str, None), "parent": Opt(E), "arg_key": Opt(str)}, truthy=None)
+
+    # statement-level classes whose `key` is compared with literals or shown in messages
+    KEY_CLASSES = [
+        exp.Use, exp.Command, exp.Create, exp.Drop, exp.Insert, exp.Update, exp.Delete, exp.Merge, exp.Select, exp.Describe,
+        exp.Alter, exp.Set, exp.Show, exp.Comment, exp.TruncateTable, exp.Transaction, exp.Commit, exp.Rollback, exp.Alias,
+        exp.Copy, exp.Union, exp.Values, exp.With, exp.Subquery, exp.Table, exp.Schema, exp.Identifier, exp.Column,
+    ]
+    w.key_classes = KEY_CLASSES
+
+    from pyvc.sorts import UPPER
+
+    def key_facts(c):
+        fs = []
+        for K in KEY_CLASSES:
+            fs.append((c == w.classes.cid(K)) == (KEY(c) == z3.StringVal(K.key)))
+            fs.append(UPPER(z3.StringVal(K.key)) == z3.StringVal(K.key.upper()))
+        return z3.And(fs)
+
+    def prop(name, cls=E):
+        def deco(f):
+            w.attr_handlers[(cls, name)] = f
+            return f
+
+        return deco
+
+    def args_of(ex, st, obj):
+        oid = V.rid(obj.t)
+        d = Val(st.arr("args")[oid], DictT(str, None))
+        st.assume(ex.type_pred(d.t, d.ty))
+        ex.assume_allocated(st, d.t)
+        return d
+
+    def arg_get(ex, st, obj, key: str, hint=None) -> Val:
+        d = args_of(ex, st, obj)
+        did = V.rid(d.t)
+        k = mks(key)
+        v = Val(z3.If(st.arr("$dhas")[did][k], st.arr("$dmap")[did][k], NONE), hint)
+        ex.assume_allocated(st, v.t)
+        return v
+
+    w.sg_arg_get = arg_get
+
+    @prop("this")
+    def _this(ex, st, obj, node):
+        ex.trusted_used.add(A)
+        return arg_get(ex, st, obj, "this")
+
+    @prop("expression")
+    def _expression(ex, st, obj, node):
+        ex.trusted_used.add(A)
+        return arg_get(ex, st, obj, "expression")
+
+    @prop("expressions")
+    def _expressions(ex, st, obj, node):
+        ex.trusted_used.add(A)
+        v = arg_get(ex, st, obj, "expressions")
+        # `args.get("expressions") or []`: a list either way (field shape: list or absent, A-SQLGLOT 1)
+        st.assume(z3.Or(V.is_none(v.t), ex.type_pred(v.t, ListT(None))))
+        empty = ex.new_seq_lit(st, list, [])
+        return Val(z3.If(ex.truthy(st, Val(v.t, Opt(ListT(None)))), v.t, empty.t), ListT(None))
+
+    @prop("key")
+    def _key(ex, st, obj, node):
+        ex.trusted_used.add(A)
+        c = CLS(V.rid(obj.t))
+        st.assume(key_facts(c))
+        return Val(mks(KEY(c)), str)
+
+    def text_of(ex, st, obj, key):
+        """Expression.text(key)"""
+        f = arg_get(ex, st, obj, key)
+        t = f.t
+        isleaf = z3.And(V.is_r(t), w.classes.isa(CLS(V.rid(t)), (exp.Identifier, exp.Literal, exp.Var)))
+        inner = arg_get(ex, st, Val(t, E), "this")
+        isstar = z3.And(V.is_r(t), w.classes.isa(CLS(V.rid(t)), (exp.Star, exp.Null)))
+        star_name = z3.Function("sg_star_name", I, S)
+        out = z3.If(
+            V.is_s(t),
+            V.sval(t),
+            z3.If(z3.And(isleaf, V.is_s(inner.t)), V.sval(inner.t), z3.If(isstar, star_name(V.rid(t)), z3.StringVal(""))),
+        )
+        # Identifier/Literal/Var `.this` is a str (A-SQLGLOT 1); otherwise python would return the non-str object
+        st.assume(z3.Implies(isleaf, V.is_s(inner.t)))
+        return out
+
+    @prop("name")
+    def _name(ex, st, obj, node):
+        ex.trusted_used.add(A)
+        c = CLS(V.rid(obj.t))
+        generic = text_of(ex, st, obj, "this")
+        # Table.name: "" if this is a Func (or missing) else this.name
+        this = arg_get(ex, st, obj, "this")
+        this_is_node = z3.And(V.is_r(this.t), w.classes.isa(CLS(V.rid(this.t)), E))
+        tbl = z3.If(
+            z3.Or(z3.Not(this_is_node), w.classes.isa(CLS(V.rid(this.t)), exp.Func)),
+            z3.StringVal(""),
+            text_of(ex, st, Val(this.t, E), "this"),
+        )
+        return Val(mks(z3.If(w.classes.isa(c, exp.Table), tbl, generic)), str)
+
+    @prop("db")
+    def _db(ex, st, obj, node):
+        ex.trusted_used.add(A)
+        return Val(mks(text_of(ex, st, obj, "db")), str)
+
+    @prop("catalog")
+    def _catalog(ex, st, obj, node):
+        ex.trusted_used.add(A)
+        return Val(mks(text_of(ex, st, obj, "catalog")), str)
+
+    @prop("alias")
+    def _alias(ex, st, obj, node):
+        ex.trusted_used.add(A)
+        a = arg_get(ex, st, obj, "alias")
+        is_ta = z3.And(V.is_r(a.t), w.classes.isa(CLS(V.rid(a.t)), exp.TableAlias))
+        return Val(mks(z3.If(is_ta, text_of(ex, st, Val(a.t, E), "this"), text_of(ex, st, obj, "alias"))), str)
+
+    @prop("is_string")
+    def _is_string(ex, st, obj, node):
+        ex.trusted_used.add(A)
+        isl = w.classes.isa(CLS(V.rid(obj.t)), exp.Literal)
+        v = arg_get(ex, st, obj, "is_string")
+        # python returns args["is_string"] itself (a bool for literals, A-SQLGLOT 1)
+        st.assume(z3.Implies(isl, V.is_b(v.t)))
+        return Val(mkb(z3.And(isl, V.bval(v.t))), bool)
+
+    @prop("quoted", exp.Identifier)
+    def _quoted(ex, st, obj, node):
+        ex.trusted_used.add(A)
+        v = arg_get(ex, st, obj, "quoted")
+        return Val(mkb(ex.truthy(st, v)), bool)
+
+    @prop("left", exp.Binary)
+    def _left(ex, st, obj, node):
+        return arg_get(ex, st, obj, "this")
+
+    @prop("right", exp.Binary)
+    def _right(ex, st, obj, node):
+        return arg_get(ex, st, obj, "expression")
+
+    @prop("unit")
+    def _unit(ex, st, obj, node):
+        return arg_get(ex, st, obj, "unit", Opt(E))
+
+    @prop("to", exp.Cast)
+    def _to(ex, st, obj, node):
+        return arg_get(ex, st, obj, "to", exp.DataType)
+
+    # ------------------------------------------------------------------ tree searches
+    ARR = z3.ArraySort(I, V)
+    DM = z3.ArraySort(I, z3.ArraySort(V, V))
+    find_fn = {}
+
+    def find_like(tag, ex, st, recv, classes, bfs):
+        """uninterpreted search result with the type facts; depends on the node, the class set, the order and the
+        current args contents (so a mutation of the tree invalidates earlier results)"""
+        key = (tag, tuple(w.classes.cid(c) for c in classes), bfs)
+        f = find_fn.get(key)
+        if f is None:
+            f = z3.Function(f"sg_{tag}_{len(find_fn)}", I, ARR, DM, V)
+            find_fn[key] = f
+        r = f(V.rid(recv.t), st.arr("args"), st.arr("$dmap"))
+        ok = z3.Or(V.is_none(r), z3.And(V.is_r(r), w.classes.isa(CLS(V.rid(r)), tuple(classes) if len(classes) > 1 else classes[0])))
+        st.assume(ok)
+        hint = Opt(classes[0]) if len(classes) == 1 else Opt(E)
+        v = Val(r, hint)
+        ex.assume_allocated(st, r)
+        return v
+
+    def m_find(ex, st, args, kw, node):
+        ex.trusted_used.add(A)
+        recv = args[0]
+        classes = []
+        for c in args[1:]:
+            classes.extend(ex._classes_of(c, node))
+        bfs = True
+        if "bfs" in kw:
+            from pyvc.spec import _NO, concrete_of
+
+            b = concrete_of(kw["bfs"])
+            if b is _NO:
+                raise Unsupported("find(bfs=<non-literal>)", node)
+            bfs = bool(b)
+        ex.as_ref(st, recv, node, "find receiver")
+        r = find_like("find", ex, st, recv, classes, bfs)
+        # a node is found in its own tree first: if the receiver itself matches, it is the result (pre-order/BFS root first)
+        self_match = w.classes.isa(CLS(V.rid(recv.t)), tuple(classes) if len(classes) > 1 else classes[0])
+        st.assume(z3.Implies(self_match, r.t == recv.t))
+        return r
+
+    H["sqlglot.expressions.Expression.find"] = m_find
+
+    def m_find_ancestor(ex, st, args, kw, node):
+        ex.trusted_used.add(A)
+        recv = args[0]
+        classes = []
+        for c in args[1:]:
+            classes.extend(ex._classes_of(c, node))
+        ex.as_ref(st, recv, node, "find_ancestor receiver")
+        f = z3.Function("sg_find_ancestor_" + "_".join(str(w.classes.cid(c)) for c in classes), I, ARR, V)
+        r = f(V.rid(recv.t), st.arr("parent"))
+        st.assume(z3.Or(V.is_none(r), z3.And(V.is_r(r), w.classes.isa(CLS(V.rid(r)), tuple(classes) if len(classes) > 1 else classes[0]))))
+        return Val(r, Opt(classes[0]) if len(classes) == 1 else Opt(E))
+
+    H["sqlglot.expressions.Expression.find_ancestor"] = m_find_ancestor
+
+    def m_find_all(ex, st, args, kw, node):
+        ex.trusted_used.add(A)
+        recv = args[0]
+        classes = []
+        for c in args[1:]:
+            classes.extend(ex._classes_of(c, node))
+        ex.as_ref(st, recv, node, "find_all receiver")
+        n = ex.fresh("find_all_n", I)
+        arr = ex.fresh("find_all_el", ARR)
+        st.assume(n >= 0)
+        j = z3.Int(fresh_name("fa"))
+        st.assume(z3.ForAll([j], z3.Implies(z3.And(j >= 0, j < n), z3.And(V.is_r(arr[j]), w.classes.isa(CLS(V.rid(arr[j])), tuple(classes) if len(classes) > 1 else classes[0])))))
+        return ex.new_seq(st, list, n, arr, elem=classes[0] if len(classes) == 1 else E)
+
+    H["sqlglot.expressions.Expression.find_all"] = m_find_all
+
+    # ------------------------------------------------------------------ construction / mutation
+    def construct_node(ex, st, cls, args, kw, node):
+        ex.trusted_used.add(A)
+        if args:
+            raise Unsupported("positional args to an Expression constructor", node)
+        obj = ex.new_object(st, cls)
+        oid = V.rid(obj.t)
+        d = ex.new_object(st, dict, DictT(str, None))
+        did = V.rid(d.t)
+        has = z3.K(V, z3.BoolVal(False))
+        mp = st.arr("$dmap")[did]
+        keys = []
+        for k, v in kw.items():
+            has = z3.Store(has, mks(k), z3.BoolVal(True))
+            mp = z3.Store(mp, mks(k), v.t)
+            keys.append(mks(k))
+            # _set_parent: nodes get their parent pointer; lists of nodes too (not modelled for list elements)
+            if v.ty is not None and isinstance(v.ty, type) and issubclass(v.ty, E):
+                st.heap["parent"] = z3.Store(st.arr("parent"), V.rid(v.t), obj.t)
+            elif v.ty is None or isinstance(v.ty, Opt):
+                isn = z3.And(V.is_r(v.t), w.classes.isa(CLS(V.rid(v.t)), E))
+                par = st.arr("parent")
+                st.heap["parent"] = z3.If(isn, z3.Store(par, V.rid(v.t), obj.t), par)
+        st.heap["$dhas"] = z3.Store(st.arr("$dhas"), did, has)
+        st.heap["$dmap"] = z3.Store(st.arr("$dmap"), did, mp)
+        st.heap["$klen"] = z3.Store(st.arr("$klen"), did, z3.IntVal(len(keys)))
+        st.heap["$kel"] = z3.Store(st.arr("$kel"), did, arr_lit(keys))
+        st.heap["args"] = z3.Store(st.arr("args"), oid, d.t)
+        st.heap["parent"] = z3.Store(st.arr("parent"), oid, NONE)
+        return obj
+
+    H["sqlglot.expressions.Expression.__new__*"] = construct_node
+
+    def lit_string(ex, st, args, kw, node):
+        s_ = args[-1]
+        return construct_node(ex, st, exp.Literal, [], {"this": Val(mks(ex.str_of(st, s_, node)), str), "is_string": w.const(True)}, node)
+
+    def lit_number(ex, st, args, kw, node):
+        s_ = args[-1]
+        return construct_node(ex, st, exp.Literal, [], {"this": Val(mks(ex.str_of(st, s_, node)), str), "is_string": w.const(False)}, node)
+
+    H["sqlglot.expressions.Literal.string"] = lit_string
+    H["sqlglot.expressions.Literal.number"] = lit_number
+
+    def m_set(ex, st, args, kw, node):
+        """Expression.set(key, value) without index: args[key] = value (pop when None); value.parent = self"""
+        ex.trusted_used.add(A)
+        recv, key, val = args[0], args[1], args[2]
+        if len(args) > 3 or kw:
+            raise Unsupported("Expression.set with index", node)
+        d = args_of(ex, st, recv)
+        did = V.rid(d.t)
+        isnone = V.is_none(val.t)
+        has, dm = st.arr("$dhas"), st.arr("$dmap")
+        st.heap["$dhas"] = z3.Store(has, did, z3.Store(has[did], key.t, z3.Not(isnone)))
+        st.heap["$dmap"] = z3.Store(dm, did, z3.Store(dm[did], key.t, val.t))
+        isn = z3.And(V.is_r(val.t), w.classes.isa(CLS(V.rid(val.t)), E))
+        par = st.arr("parent")
+        st.heap["parent"] = z3.If(isn, z3.Store(par, V.rid(val.t), recv.t), par)
+        # key order bookkeeping is not tracked for args dicts
+        return Val(NONE, NoneType)
+
+    H["sqlglot.expressions.Expression.set"] = m_set
+
+    COPY_SRC = z3.Function("sg_copy_of", I, I)
+
+    def m_copy(ex, st, args, kw, node):
+        """deep copy: fresh node of the same class, parent None, args dict fresh; non-node arg values are the same
+        values, node-valued args are (unknown) fresh copies of the same class"""
+        ex.trusted_used.add(A)
+        recv = args[0]
+        oid = ex.as_ref(st, recv, node)
+        pre_alloc = ex.alloc_term(st)
+        d0 = args_of(ex, st, recv)
+        obj = ex.new_object(st, None, recv.ty if isinstance(recv.ty, type) else E)
+        # class equals the receiver's class
+        nid = V.rid(obj.t)
+        st.assume(CLS(nid) == CLS(oid))
+        st.assume(COPY_SRC(nid) == oid)
+        d = ex.new_object(st, dict, DictT(str, None))
+        did, d0id = V.rid(d.t), V.rid(d0.t)
+        st.heap["args"] = z3.Store(st.arr("args"), nid, d.t)
+        st.heap["parent"] = z3.Store(st.arr("parent"), nid, NONE)
+        ex.bump_alloc(st)
+        k = z3.Const(fresh_name("ck"), V)
+        old_has, old_map = st.arr("$dhas"), st.arr("$dmap")
+        new_has = ex.fresh("H_$dhas", old_has.sort())
+        new_map = ex.fresh("H_$dmap", old_map.sort())
+        o = z3.Int(fresh_name("co"))
+        st.assume(z3.ForAll([o], z3.Implies(o < pre_alloc, z3.And(new_has[o] == old_has[o], new_map[o] == old_map[o]))))
+        st.assume(new_has[did] == old_has[d0id])
+        ov = old_map[d0id][k]
+        nv = new_map[did][k]
+        is_node = z3.And(V.is_r(ov), w.classes.isa(CLS(V.rid(ov)), E))
+        is_list = z3.And(V.is_r(ov), w.classes.isa(CLS(V.rid(ov)), list))
+        st.assume(
+            z3.ForAll(
+                [k],
+                z3.If(
+                    is_node,
+                    z3.And(V.is_r(nv), CLS(V.rid(nv)) == CLS(V.rid(ov)), V.rid(nv) >= pre_alloc, COPY_SRC(V.rid(nv)) == V.rid(ov)),
+                    z3.If(is_list, z3.And(V.is_r(nv), w.classes.isa(CLS(V.rid(nv)), list), V.rid(nv) >= pre_alloc), nv == ov),
+                ),
+            )
+        )
+        st.heap["$dhas"], st.heap["$dmap"] = new_has, new_map
+        return obj
+
+    H["sqlglot.expressions.Expression.copy"] = m_copy
+
+    SQL_OF = z3.Function("sg_sql_of", I, S, ARR, DM, S)
+
+    def m_sql(ex, st, args, kw, node):
+        ex.trusted_used.add(A)
+        recv = args[0]
+        oid = ex.as_ref(st, recv, node)
+        dialect = kw.get("dialect", args[1] if len(args) > 1 else w.const(""))
+        d = V.sval(dialect.t) if dialect.ty is str else z3.StringVal("?")
+        return Val(mks(SQL_OF(oid, d, st.arr("args"), st.arr("$dmap"))), str)
+
+    H["sqlglot.expressions.Expression.sql"] = m_sql
+
+    def parse_one(ex, st, args, kw, node):
+        ex.trusted_used.add(A)
+        # may raise sqlglot ParseError on malformed text
+        import sqlglot.errors
+
+        fails = ex.fresh("parse_fails", B)
+        ex.raise_if(st, fails, sqlglot.errors.ParseError, node)
+        obj = ex.new_object(st, None, E)
+        nid = V.rid(obj.t)
+        st.assume(w.classes.isa(CLS(nid), E))
+        d = ex.new_object(st, dict, DictT(str, None))
+        st.heap["args"] = z3.Store(st.arr("args"), nid, d.t)
+        st.heap["parent"] = z3.Store(st.arr("parent"), nid, NONE)
+        ex.bump_alloc(st)
+        return obj
+
+    H["sqlglot.parse_one"] = parse_one
+    w.classes.add_tree(sqlglot.errors.SqlglotError) if hasattr(sqlglot.errors, "SqlglotError") else None
+
+    # spec functions over nodes ---------------------------------------------------------------------
+    def sf(name):
+        def deco(f):
+            w.specfuns[name] = SpecFun(name, f)
+            return f
+
+        return deco
+
+    @sf("arg")
+    def _arg(ex, st, args):
+        """arg(node, 'key') == node.args.get('key')"""
+        from pyvc.spec import concrete_of
+
+        return arg_get(ex, st, args[0], concrete_of(args[1]))
+
+    @sf("has_arg")
+    def _has_arg(ex, st, args):
+        d = args_of(ex, st, args[0])
+        return Val(mkb(st.arr("$dhas")[V.rid(d.t)][args[1].t]), bool)
+
+    @sf("cls_is")
+    def _cls_is(ex, st, args):
+        c = args[1].py
+        return Val(mkb(z3.And(V.is_r(args[0].t), CLS(V.rid(args[0].t)) == w.classes.cid(c))), bool)
+
+    @sf("same_class")
+    def _same_class(ex, st, args):
+        return Val(mkb(CLS(V.rid(args[0].t)) == CLS(V.rid(args[1].t))), bool)
+
+    @sf("is_fresh")
+    def _is_fresh(ex, st, args):
+        # allocated during this call: id at or above the allocation pointer of the pre-state
+        pre = ex.spec.old if ex.spec is not None else st
+        return Val(mkb(z3.And(V.is_r(args[0].t), V.rid(args[0].t) >= ex.alloc_term(pre))), bool)
+
+    @sf("find_table")
+    def _find_table(ex, st, args):
+        return find_like("find", ex, st, args[0], [exp.Table], True)
+
+    @sf("node_parent")
+    def _node_parent(ex, st, args):
+        v = Val(st.arr("parent")[V.rid(args[0].t)], Opt(E))
+        st.assume(ex.type_pred(v.t, v.ty))
+        return v
+
+    @sf("node_name")
+    def _node_name(ex, st, args):
+        return _name(ex, st, Val(args[0].t, E), None)
+
+    @sf("upper")
+    def _upper(ex, st, args):
+        from pyvc.pybuiltins import upper_of
+
+        return Val(mks(upper_of(V.sval(args[0].t))), str)
+
+    @sf("key_of")
+    def _key_of(ex, st, args):
+        c = CLS(V.rid(args[0].t))
+        st.assume(key_facts(c))
+        return Val(mks(KEY(c)), str)
+
+    @sf("sql_of")
+    def _sql_of(ex, st, args):
+        d = V.sval(args[1].t)
+        return Val(mks(SQL_OF(V.rid(args[0].t), d, st.arr("args"), st.arr("$dmap"))), str)
